@@ -5,9 +5,8 @@ CONSTANTS
   AtomsInPlay <- MCAtoms
   SlotsInPlay <- MCSlots
   Messages <- MCMessages
-  MaxMsgs = 4
-  ReaderIgnoresSegment = FALSE
+  MaxMsgs = 3
+  ReaderIgnoresSegment = TRUE
 INVARIANT Resolved
-INVARIANT CachesAgree
 VIEW HView
 CHECK_DEADLOCK FALSE
